@@ -375,17 +375,16 @@ theorem cellValues_perm (X : Mat n) (f : Equiv.Perm (Fin n)) :
 
 /-- Latticisers under the caller's numbering: if the rewired matrix `Rrp` satisfies the C01 clauses
 relative to the permuted input `R[ix_(p,p)]`, then `Rlatt = Rrp[ix_(p⁻¹,p⁻¹)]` satisfies them relative to
-the caller's `R` — for every node permutation `p`. -/
+the caller's `R` — for every node permutation `p`. (Row sums are a separate corollary: they are promised by the
+directed routines only.) -/
 theorem latt_spec (R Rrp : AMat Int n) (p : Fin n → Fin n) (hp : Function.Injective p)
     (hrow : ∀ r, rowCnt Rrp.toFun r = rowCnt (permMat R p).toFun r)
     (hcol : ∀ c, colCnt Rrp.toFun c = colCnt (permMat R p).toFun c)
     (hvals : cellValues Rrp.toFun = cellValues (permMat R p).toFun)
-    (hdiag : ∀ v, Rrp.toFun v v = (permMat R p).toFun v v)
-    (hsum : ∀ r, rowSum Rrp.toFun r = rowSum (permMat R p).toFun r) :
+    (hdiag : ∀ v, Rrp.toFun v v = (permMat R p).toFun v v) :
     let Rlatt := permMat Rrp (invPerm p)
     (∀ r, rowCnt Rlatt.toFun r = rowCnt R.toFun r) ∧ (∀ c, colCnt Rlatt.toFun c = colCnt R.toFun c) ∧
-    cellValues Rlatt.toFun = cellValues R.toFun ∧ (∀ v, Rlatt.toFun v v = R.toFun v v) ∧
-    (∀ r, rowSum Rlatt.toFun r = rowSum R.toFun r) := by
+    cellValues Rlatt.toFun = cellValues R.toFun ∧ (∀ v, Rlatt.toFun v v = R.toFun v v) := by
   intro Rlatt
   have hbij : Function.Bijective p := ⟨hp, Finite.injective_iff_surjective.mp hp⟩
   let f : Equiv.Perm (Fin n) := Equiv.ofBijective p hbij
@@ -396,7 +395,7 @@ theorem latt_spec (R Rrp : AMat Int n) (p : Fin n → Fin n) (hp : Function.Inje
   have e1 : Rlatt.toFun = fun i j => Rrp.toFun (g i) (g j) := toFun_permMat _ _
   have e2 : (permMat R p).toFun = fun i j => R.toFun (f i) (f j) := toFun_permMat _ _
   have fg : ∀ x, f (g x) = x := fun x => invPerm_right p hp x
-  refine ⟨?_, ?_, ?_, ?_, ?_⟩
+  refine ⟨?_, ?_, ?_, ?_⟩
   · intro r; rw [e1, rowCnt_perm, hrow, e2, rowCnt_perm, fg]
   · intro c; rw [e1, colCnt_perm, hcol, e2, colCnt_perm, fg]
   · rw [e1, cellValues_perm, hvals, e2, cellValues_perm]
@@ -404,7 +403,30 @@ theorem latt_spec (R Rrp : AMat Int n) (p : Fin n → Fin n) (hp : Function.Inje
     have h1 : Rlatt.toFun v v = Rrp.toFun (g v) (g v) := by rw [e1]
     have h2 : (permMat R p).toFun (g v) (g v) = R.toFun (f (g v)) (f (g v)) := by rw [e2]
     rw [h1, hdiag, h2, fg]
-  · intro r; rw [e1, rowSum_perm, hsum, e2, rowSum_perm, fg]
+
+theorem latt_rowSum (R Rrp : AMat Int n) (p : Fin n → Fin n) (hp : Function.Injective p)
+    (hsum : ∀ r, rowSum Rrp.toFun r = rowSum (permMat R p).toFun r) (r : Fin n) :
+    rowSum (permMat Rrp (invPerm p)).toFun r = rowSum R.toFun r := by
+  have hbij : Function.Bijective p := ⟨hp, Finite.injective_iff_surjective.mp hp⟩
+  let f : Equiv.Perm (Fin n) := Equiv.ofBijective p hbij
+  have hq : Function.Bijective (invPerm p) :=
+    ⟨fun x y h => by have := congrArg p h; rwa [invPerm_right p hp, invPerm_right p hp] at this,
+     fun x => ⟨p x, invPerm_left p hp x⟩⟩
+  let g : Equiv.Perm (Fin n) := Equiv.ofBijective (invPerm p) hq
+  have e1 : (permMat Rrp (invPerm p)).toFun = fun i j => Rrp.toFun (g i) (g j) := toFun_permMat _ _
+  have e2 : (permMat R p).toFun = fun i j => R.toFun (f i) (f j) := toFun_permMat _ _
+  have fg : ∀ x, f (g x) = x := fun x => invPerm_right p hp x
+  rw [e1, rowSum_perm, hsum, e2, rowSum_perm, fg]
+
+theorem latt_symm (Rrp : AMat Int n) (q : Fin n → Fin n) (hs : ∀ i j, Rrp.toFun i j = Rrp.toFun j i) (i j : Fin n) :
+    (permMat Rrp q).toFun i j = (permMat Rrp q).toFun j i := by
+  rw [toFun_permMat]; exact hs _ _
+
+theorem latt_identity (R : AMat Int n) (p : Fin n → Fin n) (hp : Function.Injective p) :
+    permMat (permMat R p) (invPerm p) = R := by
+  apply AMat.ext_get
+  intro i j
+  simp only [permMat, AMat.get_ofFn, invPerm_right p hp]
 
 /-- the permutation the driver builds from a recorded `rng.permutation(n)` is injective -/
 theorem listToPerm_injective (pl : List ℕ) (p : Fin n → Fin n) (h : listToPerm n pl = some p) :
@@ -426,6 +448,48 @@ theorem listToPerm_injective (pl : List ℕ) (p : Fin n → Fin n) (h : listToPe
       exact Fin.ext ((List.Nodup.getElem_inj_iff hh.2).mp hxy)
     · cases h
 
+/-- **End-to-end latticiser theorem** (what `step` executes for `latmio_dir`, `latmio_und`,
+`latmio_dir_connected`, `latmio_und_connected`): for every recorded node permutation, budget and draw list,
+`Rlatt` has — under the caller's node numbering — every node's out- and in-degree, the multiset of cell values
+and the diagonal of the input, is symmetric (undirected) / keeps every out-strength (directed), equals the
+input when no rewiring was carried out, and re-indexed by the returned node ordering it is `Rrp`. -/
+theorem latt_run_spec (cfg : Cfg n) (R Rlatt Rrp : AMat Int n) (pl : List ℕ) (itr eff : ℕ) (ds rest : List ℕ)
+    (hd : EmptyDiag R) (hs : cfg.und = true → Symm R) (hsrc : cfg.und = true → cfg.src ≠ .all)
+    (hrun : runLatt cfg R pl itr ds = .ok (Rlatt, Rrp, eff, rest)) :
+    ∃ p : Fin n → Fin n, listToPerm n pl = some p ∧ Function.Injective p ∧
+    (∀ r, rowCnt Rlatt.toFun r = rowCnt R.toFun r) ∧ (∀ c, colCnt Rlatt.toFun c = colCnt R.toFun c) ∧
+    cellValues Rlatt.toFun = cellValues R.toFun ∧ (∀ v, Rlatt.toFun v v = R.toFun v v) ∧
+    (cfg.und = true → ∀ i j, Rlatt.toFun i j = Rlatt.toFun j i) ∧
+    (cfg.und = false → ∀ r, rowSum Rlatt.toFun r = rowSum R.toFun r) ∧
+    (eff = 0 → Rlatt = R) ∧ permMat Rlatt p = Rrp := by
+  unfold runLatt at hrun
+  cases hp : listToPerm n pl with
+  | none => simp [hp] at hrun
+  | some p =>
+    simp only [hp] at hrun
+    have hinj := listToPerm_injective pl p hp
+    cases hb : runBudget cfg (permMat R p) itr ds with
+    | error e => simp [hb] at hrun
+    | ok r =>
+      obtain ⟨Rrp', eff', rest'⟩ := r
+      simp only [hb, Except.ok.injEq, Prod.mk.injEq] at hrun
+      obtain ⟨rfl, rfl, rfl, rfl⟩ := hrun
+      have hdp : EmptyDiag (permMat R p) := by
+        intro v; rw [toFun_permMat]; exact hd (p v)
+      have hsp : cfg.und = true → Symm (permMat R p) := by
+        intro hu i j; rw [toFun_permMat]; exact hs hu (p i) (p j)
+      obtain ⟨h1, h2, h3, h4, h5, h6, h7⟩ := runBudget_spec cfg (permMat R p) Rrp' itr eff' ds rest' hdp hsp hsrc hb
+      obtain ⟨l1, l2, l3, l4⟩ := latt_spec R Rrp' p hinj h1 h2 h3 h4
+      refine ⟨p, rfl, hinj, l1, l2, l3, l4, ?_, ?_, ?_, latt_reindex Rrp' p hinj⟩
+      · intro hu; exact latt_symm Rrp' _ (h5 hu)
+      · intro hu r; exact latt_rowSum R Rrp' p hinj (h6 hu) r
+      · intro he
+        have : Rrp' = permMat R p := by
+          apply AMat.ext_get; intro i j
+          have := congrFun (congrFun (h7 he) i) j
+          exact this
+        rw [this]; exact latt_identity R p hinj
+
 /-! ### non-vacuity: concrete runs satisfying the hypotheses and performing swaps -/
 
 def exDir : AMat Int 4 := AMat.ofFn fun i j => if (i.val, j.val) ∈ [(0, 1), (2, 3), (1, 2)] then 5 else 0
@@ -437,5 +501,31 @@ def exUnd : AMat Int 4 := AMat.ofFn fun i j => if (i.val, j.val) ∈ [(0, 1), (1
 def cfgUnd : Cfg 4 := { und := true, conn := false, lat := none, mask := none, src := .tril, attDen := some 12 }
 example : EmptyDiag exUnd ∧ Symm exUnd := by unfold EmptyDiag Symm; decide
 example : (runBudget cfgUnd exUnd 1 [0, 1, 9007199254740991, 0, 1, 0]).toOption.map (fun r => r.2.1) = some 2 := by decide
+
+/-- a 6-ring with a chord, `randmio_und_connected` (connectivity test active), recorded from a real bct run: 7 rewirings -/
+def exRing : AMat Int 6 := matOfList #[0,1,0,1,0,1, 1,0,1,0,0,0, 0,1,0,1,0,0, 1,0,1,0,1,0, 0,0,0,1,0,1, 1,0,0,0,1,0]
+def cfgUndConn : Cfg 6 := { und := true, conn := true, lat := none, mask := none, src := .tril, attDen := some 30 }
+example : EmptyDiag exRing ∧ Symm exRing := by unfold EmptyDiag Symm; decide +kernel
+example : (runBudget cfgUndConn exRing 1 [5, 3, 6488106240503889, 1, 3, 5, 0, 831712121985346, 4, 5, 6032536003562038, 1, 2,
+    7622891058053459, 5, 2, 4, 3, 3994268574363959, 4, 5, 4813572562390792, 4, 1, 3879387813364119, 6, 0, 7011106949428834,
+    1, 1, 5, 6, 1, 7893811719423966, 4, 1, 766010157269899]).toOption.map (fun r => (r.2.1, r.2.2)) = some (7, []) := by
+  decide +kernel
+
+/-- `randomize_graph_partial_und` with a mask (`src = triu1`, no attempt budget), recorded from a real run: 2 rewirings -/
+def exMask : AMat Int 6 := matOfList #[0,0,1,0,0,0, 0,0,0,0,0,0, 1,0,0,0,0,0, 0,0,0,0,0,0, 0,0,0,0,0,0, 0,0,0,0,0,0]
+def cfgPartial : Cfg 6 := { und := true, conn := false, lat := none, mask := some exMask, src := .triu1, attDen := none }
+example : (runBudget cfgPartial exRing 2 [5, 3, 6488106240503889, 1, 3, 8998556985083693, 0, 0, 1, 4, 5, 4, 6, 8426586821345170,
+    4, 6, 2821716988242478, 4, 3, 4, 2, 2067847708412798, 6, 2, 4, 1, 1, 6, 1784339584848401]).toOption.map
+    (fun r => (r.2.1, r.2.2)) = some (2, []) := by
+  decide +kernel
+
+/-- `latmio_dir` (node permutation, default distance-to-diagonal matrix, lattice guard), recorded from a real run: 3 rewirings -/
+def exLat : AMat Int 5 := matOfList #[0,2,2,0,0, 0,0,2,0,0, 0,0,0,2,0, 0,0,0,0,2, 2,0,0,0,0]
+def cfgLat : Cfg 5 := { und := false, conn := false, lat := some (defaultD 5), mask := none, src := .all, attDen := some 20 }
+example : EmptyDiag exLat := by unfold EmptyDiag; decide +kernel
+example : (runLatt cfgLat exLat [2, 4, 0, 3, 1] 1 [1, 5, 4, 1, 2, 0, 5, 4, 0, 5, 0, 5, 4, 5, 4, 2, 4, 1, 2, 5, 5, 4, 1, 3, 0, 0,
+    1, 3, 3, 2, 2, 0, 5, 0, 3, 1, 3, 2, 1, 3, 4, 5]).toOption.map (fun r => (showMat r.1, r.2.2.1, r.2.2.2)) =
+    some ("0,2,0,2,0,0,0,2,0,0,0,0,0,0,2,2,0,0,0,0,0,0,2,0,0", 3, []) := by
+  decide +kernel
 
 end Bct.C01
